@@ -97,6 +97,21 @@ type NewsArtData struct {
 	Data          string  `yaml:"Data"`
 }
 
+// MarshalYAML writes the article as its fields, with the free-text ones protected against the values the YAML encoder
+// cannot write back faithfully (see yamlString).
+func (art NewsArtData) MarshalYAML() (interface{}, error) {
+	return struct {
+		Title         interface{} `yaml:"Title"`
+		Poster        interface{} `yaml:"Poster"`
+		Date          [8]byte     `yaml:"Date,flow"`
+		PrevArt       [4]byte     `yaml:"PrevArt,flow"`
+		NextArt       [4]byte     `yaml:"NextArt,flow"`
+		ParentArt     [4]byte     `yaml:"ParentArt,flow"`
+		FirstChildArt [4]byte     `yaml:"FirstChildArtArt,flow"`
+		Data          interface{} `yaml:"Data"`
+	}{yamlString(art.Title), yamlString(art.Poster), art.Date, art.PrevArt, art.NextArt, art.ParentArt, art.FirstChildArt, yamlString(art.Data)}, nil
+}
+
 func (art *NewsArtData) DataSize() [2]byte {
 	dataLen := make([]byte, 2)
 	binary.BigEndian.PutUint16(dataLen, uint16(len(art.Data)))
